@@ -51,9 +51,42 @@ ApplyReadingB(e, R, bound) ==
     [] e.t = "S" -> [e EXCEPT !.e = ApplyReadingB(e.e, R, bound \cup ToSet(e.r))]
     [] OTHER -> e
 ApplyReading(e, R) == ApplyReadingB(e, R, {})
-\* candidate readings an event permits: every outcome variable name takes one of the values the event gives it
 EvNames(ev) == {ev[i].n : i \in DOMAIN ev}
+\* names that occur only as subscripts of the event may be read with the mark of such a subscript
+SubNames(ev) == UNION {IvNames(ev[i]) : i \in DOMAIN ev} \ EvNames(ev)
+ReadingsSub(ev) ==
+  {R \in [EvNames(ev) \cup SubNames(ev) -> Marks] :
+     /\ \A n \in EvNames(ev) : \E i \in DOMAIN ev : ev[i].n = n /\ ev[i].s = R[n]
+     /\ \A n \in SubNames(ev) : \E i \in DOMAIN ev : <<n, R[n]>> \in ToSet(ev[i].iv)}
+\* weaker reading used where the statement does not fix how subscripts are read (C19 factorisation, C09): y0 cannot
+\* tell the subscript "X" from "-X" (both are Intervention(star=False)), so a "-" subscript on a free name that is an
+\* outcome variable of the returned event may also stand for that variable's event value
+RECURSIVE ApplyReadingIvB(_, _, _)
+RdIv(v, R, bound) == [v EXCEPT !.iv = [i \in DOMAIN v.iv |->
+                         IF v.iv[i][2] = 1 /\ v.iv[i][1] \notin bound /\ v.iv[i][1] \in DOMAIN R
+                         THEN <<v.iv[i][1], R[v.iv[i][1]]>> ELSE v.iv[i]]]
+ApplyReadingIvB(e, R, bound) ==
+  CASE e.t = "P" -> [e EXCEPT !.ch = [i \in DOMAIN e.ch |-> RdIv(RdVar(e.ch[i], R, bound), R, bound)],
+                              !.pa = [i \in DOMAIN e.pa |-> RdIv(RdVar(e.pa[i], R, bound), R, bound)]]
+    [] e.t = "M" -> [e EXCEPT !.es = [i \in DOMAIN e.es |-> ApplyReadingIvB(e.es[i], R, bound)]]
+    [] e.t = "F" -> [e EXCEPT !.a = ApplyReadingIvB(e.a, R, bound), !.b = ApplyReadingIvB(e.b, R, bound)]
+    [] e.t = "S" -> [e EXCEPT !.e = ApplyReadingIvB(e.e, R, bound \cup ToSet(e.r))]
+    [] OTHER -> e
+ApplyReadingIv(e, R) == ApplyReadingIvB(e, R, {})
+\* candidate readings an event permits: every outcome variable name takes one of the values the event gives it
 Readings(ev) == {R \in [EvNames(ev) -> Marks] : \A n \in EvNames(ev) : \E i \in DOMAIN ev : ev[i].n = n /\ ev[i].s = R[n]}
+
+\* ---------------------------------------------------------------- Correa, Lee & Bareinboim: definitions (C19)
+\* subscripts of a variable record restricted to a set of names
+IvOn(v, S) == SelectSeq(v.iv, LAMBDA i : i[1] \in S)
+\* ||Y_x|| = Y_t with T = X cap An(Y) in G with the edges into X removed, t = x restricted to T
+MinRef(G, v) == LET X == IvNames(v) IN [v EXCEPT !.iv = IvOn(v, X \cap An(RemoveIn(G, X), {v.n}))]
+\* Definition 2.1: An(Y_x) = { W_z : W in An(Y) in G with the edges out of X removed, z = x restricted to An(W) in G
+\* with the edges into X removed }; elements as <<name, set of subscripts>>
+AnCtf(G, v) ==
+  LET X == IvNames(v) IN
+  {<<w, ToSet(IvOn(v, An(RemoveIn(G, X), {w})))>> : w \in An(RemoveOut(G, X), {v.n})}
+VarKey(v) == <<v.n, ToSet(v.iv)>>
 
 \* ---------------------------------------------------------------- vocabulary (C06): single-world terms only
 RECURSIVE SingleWorldOnly(_)
